@@ -317,6 +317,8 @@ def binop(op, a, b, symr, t=None):
         a = R(*ra_) if a[0] == 'bf' else a
         b = R(*rb_) if b[0] == 'bf' else b
     if a[0] in ('shr', 'byte') or b[0] in ('shr', 'byte'):
+        if op == '>>' and a[0] == 'shr' and b[0] == 'c' and 0 <= b[1] and a[2] + b[1] < 64:
+            return ('shr', a[1], a[2] + b[1])       # floor(floor(v / 2^j) / 2^k) = floor(v / 2^(j+k))
         if op == '&' and b == ('c', 0xff) and a[0] == 'shr' and a[2] % 8 == 0:
             return ('byte', a[1], a[2] // 8)
         if op == '&' and b == ('c', 0xff) and a[0] == 'byte':
